@@ -61,12 +61,24 @@ def det_uuids():
             _uuid.uuid4 = _real_uuid4
 
 
+def split_flavour(flavour):
+    """'exp' | 'sub' | 'exp+d' | 'sub+d' -> (API flavour, backend): '+d' selects the one-graph-per-model in-memory store
+    (importer=NetworkXGraphImporterDisjoint()), otherwise the API's default shared store"""
+    base, _, b = flavour.partition("+")
+    return base, ("d" if b == "d" else "s")
+
+
 def new_topology(flavour="exp"):
     from fim.user.topology import ExperimentTopology, SubstrateTopology
+    base, backend = split_flavour(flavour)
     prev = UUIDS.active
     UUIDS.active = False        # the graph id is a real uuid: topologies never share one
     try:
-        return ExperimentTopology() if flavour == "exp" else SubstrateTopology()
+        kw = {}
+        if backend == "d":
+            from fim.graph.networkx_property_graph_disjoint import NetworkXGraphImporterDisjoint
+            kw["importer"] = NetworkXGraphImporterDisjoint()
+        return ExperimentTopology(**kw) if base == "exp" else SubstrateTopology(**kw)
     finally:
         UUIDS.active = prev
 
@@ -257,7 +269,7 @@ class Session:
     """One topology and the handles the caller holds.  Everything that touches the API runs under det_uuids()."""
 
     def __init__(self, flavour="exp"):
-        self.flavour = flavour
+        self.flavour, self.backend = split_flavour(flavour)     # .flavour stays 'exp' / 'sub' (what the model is told)
         self.topo = new_topology(flavour)
         self.handles = {}
         self.order = []
@@ -1262,3 +1274,65 @@ def after_success(sess, op, outcome):
             sess.harvest(outcome[3])
         except Exception:
             pass
+
+
+# --------------------------------------------------------------------------
+# collisions between caller-supplied names / ids and what the model already holds (any class, any scope): names the
+# library DERIVED (owned services '<switch>-ns', '<node>-<nic>-l2ovs', ports, ServicePorts, links of connections) included
+
+NAMING_OPS = ("add_node", "add_facility", "add_switch", "add_component", "add_component_mt", "add_storage", "add_service",
+              "node_add_service", "add_port_mirror", "add_link", "ns_add_interface", "add_child_interface", "rename")
+
+
+def model_names(sess, classes=None):
+    """every Name in the graph the store holds for the session's topology (optionally of some classes only)"""
+    return sorted({n[2] for n in snapshot(sess.topo)["nodes"] if n[2] is not None and (classes is None or n[0] in classes)})
+
+
+def model_ids(sess):
+    return sorted({n[1] for n in snapshot(sess.topo)["nodes"] if n[1] is not None})
+
+
+_OWN_CLASS = {"add_node": ("NetworkNode",), "add_facility": ("NetworkNode",), "add_switch": ("NetworkNode",),
+              "add_service": ("NetworkService",), "node_add_service": ("NetworkService",), "add_port_mirror": ("NetworkService",),
+              "add_link": ("Link",), "add_component": ("Component",), "add_component_mt": ("Component",), "add_storage": ("Component",),
+              "ns_add_interface": ("ConnectionPoint",), "add_child_interface": ("ConnectionPoint",)}
+_KIND_CLASS = {"node": "NetworkNode", "comp": "Component", "svc": "NetworkService", "iface": "ConnectionPoint", "link": "Link"}
+
+
+def collide(rng, sess, op, p_name=0.3, p_id=0.06, set_name=False):
+    """With probability p_name the caller-supplied name of a creating / renaming call is replaced by a name that is already
+    in the model: half of the time one of the class the call creates (any scope - an owned service's derived name for a
+    topology-level service, another node's component name, ...), otherwise one of any class.  With probability p_id a
+    caller-supplied id is replaced by an id of the model.  set_name: set_props / set_attr get the keyword `name` with such a
+    value (only for streams that are not sent to the C09 driver).  The op says what was done in op["collide"]."""
+    k = op.get("op")
+    if op.get("fault") or k is None:
+        return op
+    r = rng.random()
+    if k in NAMING_OPS and "name" in op and r < p_name:
+        cls = _OWN_CLASS.get(k)
+        if k == "rename" and op.get("h") in sess.handles:
+            cls = (_KIND_CLASS.get(sess.handles[op["h"]].kind),)
+        pool = model_names(sess, cls) if rng.random() < 0.5 else []
+        pool = pool or model_names(sess)
+        if pool:
+            return dict(op, name=rng.choice(pool), collide="name")
+    elif op.get("nid") is not None and k.startswith(("add", "node_add", "ns_add")) and r < p_name + p_id:
+        pool = model_ids(sess)
+        if pool:
+            return dict(op, nid=rng.choice(pool), collide="id")
+    elif set_name and k == "set_props" and r < p_name and op.get("h") in sess.handles and \
+            not any(x[0] == "name" for x in op.get("kw", [])):
+        cls = (_KIND_CLASS.get(sess.handles[op["h"]].kind),)
+        pool = model_names(sess, cls) or model_names(sess)
+        if pool:
+            kw = list(op.get("kw", []))
+            kw.insert(rng.randrange(len(kw) + 1), ["name", ["str", rng.choice(pool)]])
+            return dict(op, kw=kw, collide="set-name")
+    elif set_name and k == "set_attr" and r < p_name and op.get("h") in sess.handles:
+        cls = (_KIND_CLASS.get(sess.handles[op["h"]].kind),)
+        pool = model_names(sess, cls) or model_names(sess)
+        if pool:
+            return dict(op, attr="name", val=["str", rng.choice(pool)], collide="attr-name")
+    return op
